@@ -4,6 +4,7 @@ package net
 
 import (
 	"bytes"
+	"os"
 
 	"github.com/lugu/qiloop/internal/zzverif/sym"
 )
@@ -223,4 +224,48 @@ func C10SendersLarge() {
 	}
 	sym.Assert(seen1 && seen2, "message-lost")
 	sym.Reach("large-done")
+}
+
+// C10PipeSenders: the fd-passing transport (PipeStream over os.Pipe; in the engine *os.File on a pipe
+// is a modelled byte queue whose Write is one indivisible step, as the fd write lock makes it). Two
+// senders, one frame each, one of them larger than PIPE_BUF: the reading side (an end point on the
+// same pipe, looped back) receives both frames intact.
+func C10PipeSenders() {
+	r, w, err := os.Pipe()
+	sym.Assert(err == nil, "pipe")
+	if err != nil {
+		return
+	}
+	st := PipeStream(r, w)
+	got := make(chan *Message, 4)
+	e := EndPointFinalizer(st, func(e EndPoint) {
+		e.MakeHandler(func(h *Header) (bool, bool) { return true, true }, got, nil)
+	})
+	big := make([]byte, 4500)
+	big[0], big[4095-28], big[4096-28], big[4499] = sym.U8("first"), sym.U8("before-pipe-buf"), sym.U8("after-pipe-buf"), sym.U8("last")
+	m1 := NewMessage(NewHeader(Call, sym.U32("s1"), 1, 1, 1), big)
+	m2 := NewMessage(NewHeader(Call, sym.U32("s2"), 1, 1, 2), []byte{sym.U8("small")})
+	done := make(chan bool, 2)
+	go func() { sym.Assert(e.Send(m1) == nil, "send-ok"); done <- true }()
+	go func() { sym.Assert(e.Send(m2) == nil, "send-ok"); done <- true }()
+	<-done
+	<-done
+	seen1, seen2 := false, false
+	for i := 0; i < 2; i++ {
+		m := <-got // a frame that never arrives is a deadlock finding
+		if m == nil {
+			sym.Fail("pipe/stream-corrupted")
+			return
+		}
+		if m.Header.ID == 1 {
+			sym.Assert(!seen1 && zzSameMessage(*m, m1), "pipe/large-message-altered")
+			seen1 = true
+		} else {
+			sym.Assert(!seen2 && zzSameMessage(*m, m2), "pipe/small-message-altered")
+			seen2 = true
+		}
+	}
+	sym.Assert(seen1 && seen2, "pipe/message-lost")
+	e.Close()
+	sym.Reach("pipe-done")
 }
